@@ -72,10 +72,19 @@ class LazyClass:
         out = set()
         for n, f in self.members.items():
             for node in ast.walk(f.node):
-                if isinstance(node, ast.For) and self_attr(node.iter) is not None:
-                    src = self.members.get(self_attr(node.iter))
-                    if src is None or not self._enumerates_lazies(src):
-                        continue
+                inlined = False
+                if isinstance(node, ast.For) and isinstance(node.iter, ast.Name):
+                    # the enumeration inlined into the reset method: names = [... inspect.getmembers(cls, predicate=<lazyproperty test>)]
+                    inlined = any(isinstance(a_, ast.Assign) and len(a_.targets) == 1 and isinstance(a_.targets[0], ast.Name)
+                                  and a_.targets[0].id == node.iter.id and 'getmembers' in unparse(a_.value, 0)
+                                  for a_ in ast.walk(f.node)) and self._enumerates_lazies(f)
+                elif isinstance(node, ast.For) and not isinstance(node.iter, ast.Attribute) and 'getmembers' in unparse(node.iter, 0):
+                    inlined = self._enumerates_lazies(f)
+                if isinstance(node, ast.For) and (self_attr(node.iter) is not None or inlined):
+                    if not inlined:
+                        src = self.members.get(self_attr(node.iter))
+                        if src is None or not self._enumerates_lazies(src):
+                            continue
                     tgt = node.target.id if isinstance(node.target, ast.Name) else None
                     for b in ast.walk(node):
                         if isinstance(b, ast.Call) and isinstance(b.func, ast.Attribute) \
